@@ -538,7 +538,8 @@ fn whole_layout(out: &mut Out, r: &mut Rng, excluded: bool) {
         cs.size.height = main_size;
     }
     let n = r.below(7);
-    let factors: &[f32] = if r.chance(1, 2) { &FACTOR_GE1 } else { &FACTOR };
+    let ge1 = r.chance(1, 2);
+    let factors: &[f32] = if ge1 { &FACTOR_GE1 } else { &FACTOR };
     let mut children = vec![];
     for _ in 0..n {
         let mut s = Style { ..Default::default() };
@@ -562,8 +563,8 @@ fn whole_layout(out: &mut Out, r: &mut Rng, excluded: bool) {
             s.margin.top = ms;
             s.margin.bottom = me;
         }
-        if r.chance(1, 6) {
-            let p = LengthPercentage::length(*r.pick(&[1.0f32, 2.0]));
+        if r.chance(1, 5) {
+            let p = LengthPercentage::length(*r.pick(&[1.0f32, 2.0, 2.0, 10.0]));
             s.padding = Rect { left: p, right: p, top: LengthPercentage::length(0.0), bottom: LengthPercentage::length(0.0) };
             if !row {
                 s.padding = Rect { top: p, bottom: p, left: LengthPercentage::length(0.0), right: LengthPercentage::length(0.0) };
@@ -664,6 +665,77 @@ fn whole_layout(out: &mut Out, r: &mut Rng, excluded: bool) {
             }
             if !ok && excluded {
                 out.count("wlx:overlap (outside the quantifier: negative margins / relative insets)");
+            }
+            // the exhaustion clause on the whole layout (single line, definite inner main size, every non-zero factor >= 1):
+            // the line is filled exactly, or it overflows and every item that may shrink sits at its minimum, or it underfills
+            // and every item that may grow sits at its maximum
+            if !excluded && ge1 && wrap == FlexWrap::NoWrap && !main_size.is_auto() {
+                let main = main_size.into_option().unwrap();
+                let inner = (main - 2.0 * pad - 2.0 * bor).max(0.0) as f64;
+                let mut sum = 0.0f64;
+                let mut sum_lo = 0.0f64;
+                let mut k = 0usize;
+                let mut can_shrink_above_min = false;
+                let mut can_grow_below_max = false;
+                let scale = inner.abs().max(1.0);
+                let mut mag = scale;
+                // outside the clause as proved (C07.flexibility_exhausted): an item whose max size is below its padding + border
+                let mut max_below_pb = false;
+                for (c, l) in children.iter().zip(&ls) {
+                    if !c.in_flow {
+                        continue;
+                    }
+                    k += 1;
+                    let st = &c.style;
+                    let (size, ms, me, mn, mx, pb) = if row {
+                        (l.size.width, l.margin.left, l.margin.right, st.min_size.width, st.max_size.width, l.padding.left + l.padding.right + l.border.left + l.border.right)
+                    } else {
+                        (l.size.height, l.margin.top, l.margin.bottom, st.min_size.height, st.max_size.height, l.padding.top + l.padding.bottom + l.border.top + l.border.bottom)
+                    };
+                    sum += size as f64 + ms as f64 + me as f64;
+                    mag = mag.max(size.abs() as f64);
+                    // the freeze loop clamps target sizes by the min size WITHOUT the padding+border floor; the floor is applied
+                    // to the final size afterwards. An item that sits on that floor may have had any smaller target size.
+                    let floor_lo = mn.into_option().unwrap_or(0.0).min(pb);
+                    sum_lo += (if size <= pb { floor_lo } else { size }) as f64 + ms as f64 + me as f64;
+                    if mx.into_option().map_or(false, |m| m < pb) {
+                        max_below_pb = true;
+                    }
+                    let lo = mn.into_option().unwrap_or(0.0).max(pb);
+                    let hi = mx.into_option().map(|m| m.max(lo));
+                    let tol_i = (mag / 131072.0) as f32;
+                    if st.flex_shrink >= 1.0 && size > lo + tol_i {
+                        can_shrink_above_min = true;
+                    }
+                    if st.flex_grow >= 1.0 && hi.map_or(true, |h| size < h - tol_i) {
+                        can_grow_below_max = true;
+                    }
+                }
+                if max_below_pb {
+                    out.count("wl:exhaustion:excluded-max-below-padding-border");
+                } else if k >= 1 {
+                    sum += gap as f64 * (k as f64 - 1.0);
+                    sum_lo += gap as f64 * (k as f64 - 1.0);
+                    let tol = mag * k as f64 / 65536.0;
+                    let verdict = if sum_lo - tol <= inner && inner <= sum + tol {
+                        "filled"
+                    } else if sum_lo > inner {
+                        if can_shrink_above_min { "bad" } else { "overflow-all-at-min" }
+                    } else if can_grow_below_max {
+                        "bad"
+                    } else {
+                        "underfill-all-at-max"
+                    };
+                    out.count(&format!("wl:exhaustion:{verdict}"));
+                    if verdict == "bad" {
+                        out.impl_violation(format!(
+                            "sig:c07-not-exhausted whole layout: outer sizes + gaps = {sum} for an inner main size of {inner}, yet an item that may still flex is not at its bound; sizes {:?}; container {:?}; children {:?}",
+                            ls.iter().map(|l| if row { (l.size.width, l.margin.left, l.margin.right) } else { (l.size.height, l.margin.top, l.margin.bottom) }).collect::<Vec<_>>(),
+                            crate::hist::style_brief(&cs),
+                            children.iter().map(|c| crate::hist::style_brief(&c.style)).collect::<Vec<_>>()
+                        ));
+                    }
+                }
             }
         }
     }
